@@ -180,12 +180,20 @@ func c19crossStrings() []c19cross {
 			add("semver:valid-not-canonical", s)
 		}
 	}
-	for _, core := range []string{"v0", "v1", "v2", "v10", "v0.0", "v1.4", "v10.20", "v0.0.0", "v1.2.3", "v3.1.0", "v10.20.30"} {
+	builds := []string{"", "+build", "+build.20240131", "+exp.sha.5114f85", "+001", "+-", "+vendor.2"}
+	for _, core := range []string{"v0.0.0", "v1.2.3", "v3.1.0", "v10.20.30"} {
 		for _, pre := range []string{"", "-rc.1", "-0", "-alpha.1.beta", "-x-y-z.--"} {
-			for _, build := range []string{"", "+build", "+build.20240131", "+exp.sha.5114f85", "+001", "+-", "+vendor.2"} {
+			for _, build := range builds {
 				ver(core + pre + build)
 			}
 		}
+	}
+	for _, core := range []string{"v0", "v1", "v2", "v10", "v0.0", "v1.4", "v10.20"} { // the shorthands: no prerelease in the grammar
+		for _, build := range builds {
+			ver(core + build)
+		}
+		ver(core + "-rc.1")
+		ver(core + "-rc.1+build")
 	}
 	for _, s := range []string{"1.2.3", "1.2", "1", "1.2.3+build", "V1.2.3", "v01.2.3", "v1.02.3", "v1.2.03", "v1.2.3-01", " v1.2.3", "v1.2.3 ", "v1.2.3\n", "\tv1.2.3",
 		"=v1.2.3", "^1.2.3", "~1.2", ">=1.0", "<v2", "1.2.x", "*", "latest", "v1.2.3.4", "1.0.0-SNAPSHOT", "2024.01.31", "r123", "v", "v.", "v1.", "v1.2.", "v1.2.3-", "v1.2.3+",
